@@ -983,11 +983,11 @@ func toBool(value interface{}) bool {
 	switch v := value.(type) {
 	case bool:
 		return v
-	case int, int8, int16, int32, int64:
+	case int:
 		return v != 0
-	case uint, uint8, uint16, uint32, uint64:
+	case int64:
 		return v != 0
-	case float32, float64:
+	case float64:
 		return v != 0
 	case string:
 		return v != ""
@@ -995,6 +995,25 @@ func toBool(value interface{}) bool {
 		return len(v) > 0
 	case map[string]interface{}:
 		return len(v) > 0
+	}
+
+	// Other numeric types and typed collections: truthiness is the negation of emptiness
+	// (in a case listing several types v would still be an interface value, and comparing
+	// it with the untyped constant 0 is only true for int(0))
+	rv := reflect.ValueOf(value)
+	switch rv.Kind() {
+	case reflect.Bool:
+		return rv.Bool()
+	case reflect.Int, reflect.Int8, reflect.Int16, reflect.Int32, reflect.Int64:
+		return rv.Int() != 0
+	case reflect.Uint, reflect.Uint8, reflect.Uint16, reflect.Uint32, reflect.Uint64:
+		return rv.Uint() != 0
+	case reflect.Float32, reflect.Float64:
+		return rv.Float() != 0
+	case reflect.String:
+		return rv.String() != ""
+	case reflect.Array, reflect.Slice, reflect.Map:
+		return rv.Len() > 0
 	}
 
 	// Default to true for non-nil values
@@ -1056,11 +1075,11 @@ func isEmptyValue(v interface{}) bool {
 		return value == ""
 	case bool:
 		return !value
-	case int, int8, int16, int32, int64:
+	case int:
 		return value == 0
-	case uint, uint8, uint16, uint32, uint64:
+	case int64:
 		return value == 0
-	case float32, float64:
+	case float64:
 		return value == 0
 	case []interface{}:
 		return len(value) == 0
